@@ -145,4 +145,19 @@ var checks = map[string]*check{
 			{Name: "output", Kind: "explore", Scen: "plugin_output", BatchN: 100, Depths: depths([]int{0}, []int{0}), Budget: budget(3*time.Minute, 30*time.Minute)},
 		},
 	},
+	"C04": {
+		Title: "Kill always ends the plugin process in bounded time, gracefully if possible",
+		Level: "model_checking",
+		Rule: "plugin shutdown behaviour {exits at once, after 1 s, after 1.9 s, ignores the request, frozen (SIGSTOP model), already crashed, never completed the handshake, busy in a call, busy and ignoring} x protocol {net/rpc, gRPC, gRPC+mux} x call pattern {Kill, Kill;Kill, 2 and 3 concurrent Kills, CleanupClients over 3 managed clients in mixed states}, " +
+			"the real Client/RPCClient/GRPCClient against a real RPCServer/GRPCServer in a scripted process, under every schedule / timer order / select choice with <= d deviations; non-trivial = >= 2 alternatives at some decision point",
+		Assumptions: []string{
+			"process = scripted runner in its own failure domain: exit closes its descriptors, freeze stops its goroutines and its reads (real-process cells: E3 part, planned)",
+			"bounded-latency and graceful-clause verdicts only without TIME deviation; 'returns', 'process gone', 'Exited()' and no-panic verdicts in every execution",
+			"frozen plugin: bound 45 s (yamux keep-alive 30 s + 10 s, or the 2 s shutdown deadline + 2 s grace)",
+		},
+		Parts: []part{
+			{Name: "sequential", Kind: "explore", Scen: "kill_plugin", Inst: inst("seq", "seq"), Depths: depths([]int{2}, []int{2, 3}), Budget: budget(3*time.Minute, 20*time.Minute)},
+			{Name: "concurrent", Kind: "explore", Scen: "kill_plugin", Inst: inst("conc", "conc-thorough"), Depths: depths([]int{2}, []int{2, 3}), Budget: budget(3*time.Minute, 20*time.Minute)},
+		},
+	},
 }
